@@ -2,6 +2,7 @@
 table of symbolic implementations of numpy functions (IMPL)."""
 from __future__ import annotations
 
+import collections
 import operator
 
 import numpy as np
@@ -180,11 +181,6 @@ class SymNd(_nd):
                 v[i] = coerce(src[i], dt)
         else:
             v = coerce(val, dt)
-            if isinstance(v, Sym) or v is None or isinstance(v, str):
-                # wrap to keep numpy from iterating
-                w = np.empty((), dtype=object)
-                w[()] = v
-                v = w
         _nd.__setitem__(self, idx, v)
 
     def __iter__(self):
@@ -512,7 +508,7 @@ def _to_obj(data):
         for i, s in enumerate(subs):
             out[i] = s if shp else s[()]
         return out
-    if isinstance(data, (range,)):
+    if isinstance(data, (range, collections.deque)):
         return _to_obj(list(data))
     out = np.empty((), dtype=object)
     out[()] = data
@@ -1689,9 +1685,30 @@ def np_allclose(a, b, rtol=1e-05, atol=1e-08, equal_nan=False):
     return bool(np_all(np_isclose(a, b, rtol, atol, equal_nan)))
 
 
-@impl("quantile", "percentile")
+@impl("quantile")
 def np_quantile(a, q, axis=None, **kw):
-    raise Unencodable("quantile on symbolic content")
+    """linear interpolation between order statistics; q must be concrete"""
+    a = asnd(a)
+    if isinstance(q, Sym) and is_sym(q):
+        raise Unencodable("quantile with symbolic q")
+    if axis is not None or a.ndim != 1 or kw.get("method", "linear") != "linear":
+        return fallback(np.quantile, "quantile", (a, q), dict(axis=axis, **kw))
+    if not np.isscalar(q):
+        return SymNd(_to_obj([np_quantile(a, float(x)) for x in np.asarray(q).reshape(-1)]), FLOAT)
+    q = float(q)
+    if not 0 <= q <= 1:
+        raise ValueError("Quantiles must be in the range [0, 1]")
+    n = a.shape[0]
+    if n == 0:
+        return np.float64("nan")
+    vals = list(raw(np_sort(a.astype(float))))
+    pos = q * (n - 1)
+    lo = int(np.floor(pos))
+    hi = min(lo + 1, n - 1)
+    t = pos - lo
+    if t == 0:
+        return vals[lo]
+    return core.s_add(vals[lo], core.s_mul(core.s_sub(vals[hi], vals[lo]), np.float64(t)))
 
 
 @impl("round", "around")
